@@ -89,6 +89,19 @@ CHECKS = {
         note="Trusted: TLC, the process runner (timeouts: 20 s in process, 60 s binaries). The byte-level behaviour of the logos lexer is observed, not modelled; the input space is sampled (seeded), only the token-sequence families are exhaustive (C12).",
         technique="termination invariants model-checked in the TLA+ specs of unifier/parser/loader + trace validation of observed front-end outcomes against Frontends.tla over generated and mutated inputs",
     ),
+    "C13": dict(
+        design_ref="DESIGN.md 3.9, 4 (C13)",
+        text="TLC model-checks Frontends.tla (the CLI run as config -> load -> eval -> base -> serialize -> write -> exit, the "
+             "playground entry point and one language-server cycle on sources of a hidden class): WriteIsLast, ExitIffWritten, "
+             "FailureIsLocatedAndHarmless, FrontEndsAgree, ConfigIrrelevant, Terminates. Sources of all seven classes "
+             "(hand-written single- and multi-module representatives, accepted repository programs and class-directed mutants) are "
+             "run through the real oal-cli under 8 configurations (options/config file x base/no base x target absent/present with "
+             "sentinel), oal_wasm::compile and the real oal-lsp; TLC infers the hidden class from the recorded observations "
+             "(FrontendsTrace.tla): a source is accepted iff one class explains all observations and equals the predicted class where "
+             "one is known; CLI and playground documents are compared byte for byte.",
+        note="Trusted: TLC, the process runners, the criterion for a located diagnostic (stderr names a source module by URL). The class space is small and the model simple; the weight of this check is in the observations of the real binaries.",
+        technique="TLA+ model of the front-end outcomes with a hidden source class (TLC) + trace validation of observed oal-cli / playground / oal-lsp runs with class inference",
+    ),
 }
 
 PENDING_REASON = "check not built yet (work in progress; see DESIGN.md section 8 for the build order)"
